@@ -11,6 +11,7 @@
 use std::io::{self, BufRead, Write};
 use std::panic::{catch_unwind, AssertUnwindSafe};
 
+pub mod raster_common;
 pub mod util;
 
 use util::{Rng, Tier};
@@ -42,6 +43,20 @@ pub fn harness_main(gen: GenFn, run: RunFn) {
         }
         "run" => {
             std::panic::set_hook(Box::new(|_| {}));
+            // Watchdog: a single case that runs for more than 15 s (e.g. a loop over 2^32
+            // fragments after a broken row count) ends the run with exit status 3.
+            let started = std::sync::Arc::new(std::sync::Mutex::new((std::time::Instant::now(), String::new())));
+            {
+                let started = started.clone();
+                std::thread::spawn(move || loop {
+                    std::thread::sleep(std::time::Duration::from_secs(1));
+                    let g = started.lock().unwrap();
+                    if !g.1.is_empty() && g.0.elapsed().as_secs() >= 15 {
+                        eprintln!("HANG: case did not finish within 15 s: {}", g.1);
+                        std::process::exit(3);
+                    }
+                });
+            }
             for line in io::stdin().lock().lines() {
                 let line = line.unwrap();
                 let line = line.trim();
@@ -49,6 +64,7 @@ pub fn harness_main(gen: GenFn, run: RunFn) {
                     continue;
                 }
                 let toks: Vec<&str> = line.split_ascii_whitespace().collect();
+                *started.lock().unwrap() = (std::time::Instant::now(), line.chars().take(2000).collect());
                 let res = catch_unwind(AssertUnwindSafe(|| run(&toks)));
                 let res = match res {
                     Ok(s) => s,
